@@ -487,6 +487,10 @@ func execReq(req *proto.Req, resp *proto.Resp) {
 		server.ServeSingleHTTP(w, r)
 		resp.Status = w.Code
 		resp.Body = w.Body.Bytes()
+		if len(resp.Body) > 64<<20 {
+			resp.BodyLen = len(resp.Body)
+			resp.Body = append([]byte(nil), resp.Body[:1<<20]...)
+		}
 	case "rpc":
 		reply, err := server.VerifHandleCommand(&datastore.Request{Command: dvid.Command(req.RPC), Input: req.Body})
 		if err != nil {
